@@ -140,6 +140,6 @@ def plan(tier):
                "1 update_node_role(Leader); unwind n+2 with unwinding assertions; intersection lemma: all 64-bit v,a,b"
                % (len(shapes), max(len(sh[0]) for sh in shapes)))
     p.not_covered = "more additions / more distinct ids than the listed shapes; openraft membership changes; lock contention"
-    p.per_harness_timeout = 600 if tier == 'quick' else 1500
-    p.total_timeout = 1500 if tier == 'quick' else 7000
+    p.per_harness_timeout = 900 if tier == 'quick' else 1500
+    p.total_timeout = 2700 if tier == 'quick' else 7000
     return p
